@@ -24,9 +24,9 @@ type scenario struct {
 
 type execOutcome struct {
 	Res        *vsched.Result
-	Outcome    string   // canonical observable outcome (for distinct-outcome counting)
-	Violations []vio    // oracle verdicts for this execution
-	Collided   bool     // whether >=2 threads contended for one resource (non-vacuity)
+	Outcome    string // canonical observable outcome (for distinct-outcome counting)
+	Violations []vio  // oracle verdicts for this execution
+	Collided   bool   // whether >=2 threads contended for one resource (non-vacuity)
 	HarnessErr string
 }
 
